@@ -1476,6 +1476,40 @@ def _anew(w, c):
     return w.bs.Array(_dtype_arg(w, c, name, n, style), items, **kw)
 
 
+@op('ascaled')
+def _ascaled(w, c):
+    """Array(Dtype(name, n, scale=2**k), items) built at once / by append / by extend / by item assignment over
+    zeros: returns its data and its items as read back"""
+    name, n, k = c['sa'][0], N(c['ia'][0]), c['ia'][1]
+    how = c['sa'][1] if len(c['sa']) > 1 else 'list'
+    scale = 2 ** k if k >= 0 else 2.0 ** k
+    dt = w.bs.Dtype(name, n, scale=scale)
+    items = _items(w, c)
+    if how == 'append':
+        a = w.bs.Array(dt)
+        for it in items:
+            a.append(it)
+    elif how == 'extend':
+        a = w.bs.Array(dt)
+        a.extend(items)
+    elif how == 'setitem':
+        a = w.bs.Array(dt, [0] * len(items))
+        for i, it in enumerate(items):
+            a[i] = it
+    else:
+        a = w.bs.Array(dt, items)
+    vals = a.tolist()
+    out = []
+    for v in vals:
+        if isinstance(v, int) and not isinstance(v, bool):
+            out.append(v)
+        elif isinstance(v, float):
+            out.append(v)
+        else:
+            return enc.OPAQUE
+    return Multi([w.bs.BitArray(a.data)] + out)
+
+
 @op('anewdata')
 def _anewdata(w, c):
     name, n = c['sa'][0], N(c['ia'][0])
